@@ -158,7 +158,7 @@ func ReadAllRecords(rr protocol.RecordReader) ([]refcodec.Record, error) {
 			}
 			return out, err
 		}
-		m := refcodec.Record{Offset: r.Offset, Timestamp: r.Time.UnixNano() / int64(time.Millisecond)}
+		m := refcodec.Record{Offset: r.Offset, Timestamp: refcodec.MillisOf(r.Time)}
 		if r.Key == nil {
 			m.KeyNull = true
 		} else {
